@@ -791,3 +791,411 @@ Proof.
   - inversion F as [|s s2 t t2 Hh Ht E0 E2]; subst s2 t2. rewrite <- E0 in Hc.
     cbn [contiguous] in Hc, Hc1. destruct Hh as (Hsn & _). rewrite <- (proj1 Hc1), Hsn. exact (proj1 Hc).
 Qed.
+
+(* ================================================================== *)
+(* 5. flush                                                            *)
+(* ================================================================== *)
+(* ---- phases (same split as InvFlushBase; kept local so that this file does not depend on it) ---- *)
+Definition ns_h0 (k : kcp) : seg :=
+  mkSeg (conv k) c_IKCP_CMD_ACK 0 (wnd_unused k) 0 0 (rcv_nxt k) 0 0 0 0 0 [].
+
+Definition ns_ph1 (k : kcp) (ft : Z) : res (seg * stage * kcp) :=
+  if (ft =? FLUSH_ACKONLY) || (ft =? FLUSH_FULL)
+  then match flush_acks k (ns_h0 k) (mkStage [] []) (acklist k) with
+       | Ok (h, st) => Ok (h, st, set_acklist k [])
+       | Panic w => Panic w
+       end
+  else Ok (ns_h0 k, mkStage [] [], k).
+
+Definition ns_ph2 (k1 : kcp) (now : Z) : kcp :=
+  if rmt_wnd k1 =? 0 then
+    if probe_wait k1 =? 0 then set_probe k1 (probe k1) (u32 (now + c_IKCP_PROBE_INIT)) c_IKCP_PROBE_INIT
+    else if itimediff now (ts_probe k1) >=? 0 then
+      let pw := if probe_wait k1 <? c_IKCP_PROBE_INIT then c_IKCP_PROBE_INIT else probe_wait k1 in
+      let pw := u32 (pw + pw / 2) in
+      let pw := if pw >? c_IKCP_PROBE_LIMIT then c_IKCP_PROBE_LIMIT else pw in
+      set_probe k1 (Z.lor (probe k1) c_IKCP_ASK_SEND) (u32 (now + pw)) pw
+    else k1
+  else set_probe k1 (probe k1) 0 0.
+
+Definition ns_hdr (h1 : seg) (c : Z) : seg :=
+  mkSeg (s_conv h1) c (s_frg h1) (s_wnd h1) (s_ts h1) (s_sn h1) (s_una h1) 0 0 0 0 0 [].
+
+Definition ns_ph3 (k2 : kcp) (h1 : seg) (st : stage) (flag c : Z) : res stage :=
+  if negb (Z.land (probe k2) flag =? 0)
+  then stage_write k2 (make_space k2 st c_IKCP_OVERHEAD) (ns_hdr h1 c)
+  else Ok st.
+
+Definition ns_cw (k3 : kcp) : Z :=
+  let cw0 := Z.min (snd_wnd k3) (rmt_wnd k3) in
+  if nocwnd k3 =? 0 then Z.min (cwnd k3) cw0 else cw0.
+
+Definition ns_ph4 (k3 : kcp) (ft : Z) : list seg * list seg * Z * Z :=
+  if ft =? FLUSH_FULL
+  then admit (snd_queue k3) (snd_buf k3) (conv k3) (snd_una k3) (snd_nxt k3) (ns_cw k3) 0
+  else (snd_queue k3, snd_buf k3, snd_nxt k3, 0).
+
+Definition ns_k4 (k3 : kcp) (sq sb : list seg) (nxt : Z) : kcp :=
+  set_snd_nxt (set_queues k3 sq (rcv_queue k3) sb (rcv_buf k3)) nxt.
+
+Definition ns_resent (k4 : kcp) : Z :=
+  if fastresend k4 <=? 0 then 4294967295 else u32 (fastresend k4).
+
+Definition ns_ph5 (k4 : kcp) (h1 : seg) (ft newsegs now : Z) (st3 : stage) : res (list seg * fl) :=
+  let a0 := mkFl st3 0 0 0 0 (interval k4) false in
+  if ft =? FLUSH_FULL
+  then flush_segs k4 h1 (ns_resent k4) newsegs now (snd_buf k4) a0
+  else Ok (snd_buf k4, a0).
+
+Definition ns_k5 (k4 : kcp) (sb' : list seg) (a : fl) : kcp :=
+  let k5 := set_snd_buf k4 sb' in
+  if f_dead a then set_timer k5 4294967295 (ts_flush k5) (updated k5) else k5.
+
+Definition ns_ph6 (k5 : kcp) (a : fl) (cw resent : Z) : kcp :=
+  if nocwnd k5 =? 0 then
+    let k := k5 in
+    let k := if f_change a >? 0 then
+               let inflight := u32 (snd_nxt k - snd_una k) in
+               let sst := Z.max (inflight / 2) c_IKCP_THRESH_MIN in
+               let cwn := u32 (sst + resent) in
+               set_cc k sst (rmt_wnd k) cwn (u32 (cwn * mss k))
+             else k in
+    let k := if f_lost a >? 0 then set_cc k (Z.max (cw / 2) c_IKCP_THRESH_MIN) (rmt_wnd k) 1 (mss k) else k in
+    if cwnd k <? 1 then set_cc k (ssthresh k) (rmt_wnd k) 1 (mss k) else k
+  else k5.
+
+(* NB: a bare `reflexivity` does not terminate here; delta + zeta first makes both sides identical *)
+Lemma ns_flush_unfold k ft now :
+  flush k ft now =
+  match ns_ph1 k ft with
+  | Panic w => Panic w
+  | Ok (h1, st1, k1) =>
+    let k2 := ns_ph2 k1 now in
+    match ns_ph3 k2 h1 st1 c_IKCP_ASK_SEND c_IKCP_CMD_WASK with
+    | Panic w => Panic w
+    | Ok st2 =>
+    match ns_ph3 k2 h1 st2 c_IKCP_ASK_TELL c_IKCP_CMD_WINS with
+    | Panic w => Panic w
+    | Ok st3 =>
+    let k3 := set_probe_flags k2 0 in
+    let '(sq, sb, nxt, newsegs) := ns_ph4 k3 ft in
+    let k4 := ns_k4 k3 sq sb nxt in
+    match ns_ph5 k4 h1 ft newsegs now st3 with
+    | Panic w => Panic w
+    | Ok (sb', a) =>
+      Ok (ns_ph6 (ns_k5 k4 sb' a) a (ns_cw k3) (ns_resent k4), f_next a, flush_buffer (f_st a))
+    end end end
+  end.
+Proof.
+  unfold flush, ns_ph1, ns_ph2, ns_ph3, ns_ph4, ns_k4, ns_ph5, ns_k5, ns_ph6, ns_cw, ns_resent, ns_hdr, ns_h0.
+  cbv zeta. reflexivity.
+Qed.
+
+Lemma ns_flush_invert k ft now k' nx o :
+  flush k ft now = Ok (k', nx, o) ->
+  exists h1 st1 k1 st2 st3 sq sb nxt ns sb' a,
+    ns_ph1 k ft = Ok (h1, st1, k1) /\
+    ns_ph3 (ns_ph2 k1 now) h1 st1 c_IKCP_ASK_SEND c_IKCP_CMD_WASK = Ok st2 /\
+    ns_ph3 (ns_ph2 k1 now) h1 st2 c_IKCP_ASK_TELL c_IKCP_CMD_WINS = Ok st3 /\
+    ns_ph4 (set_probe_flags (ns_ph2 k1 now) 0) ft = (sq, sb, nxt, ns) /\
+    ns_ph5 (ns_k4 (set_probe_flags (ns_ph2 k1 now) 0) sq sb nxt) h1 ft ns now st3 = Ok (sb', a) /\
+    k' = ns_ph6 (ns_k5 (ns_k4 (set_probe_flags (ns_ph2 k1 now) 0) sq sb nxt) sb' a) a
+                (ns_cw (set_probe_flags (ns_ph2 k1 now) 0))
+                (ns_resent (ns_k4 (set_probe_flags (ns_ph2 k1 now) 0) sq sb nxt)) /\
+    o = flush_buffer (f_st a).
+Proof.
+  rewrite ns_flush_unfold. intros H.
+  destruct (ns_ph1 k ft) as [[[h1 st1] k1]|w]; [|discriminate]. cbv zeta in H.
+  destruct (ns_ph3 (ns_ph2 k1 now) h1 st1 c_IKCP_ASK_SEND c_IKCP_CMD_WASK) as [st2|w] eqn:E2; [|discriminate].
+  destruct (ns_ph3 (ns_ph2 k1 now) h1 st2 c_IKCP_ASK_TELL c_IKCP_CMD_WINS) as [st3|w] eqn:E3; [|discriminate].
+  destruct (ns_ph4 (set_probe_flags (ns_ph2 k1 now) 0) ft) as [[[sq sb] nxt] ns] eqn:E4.
+  destruct (ns_ph5 (ns_k4 (set_probe_flags (ns_ph2 k1 now) 0) sq sb nxt) h1 ft ns now st3) as [[sb' a]|w] eqn:E5; [|discriminate].
+  inversion H; subst.
+  exists h1, st1, k1, st2, st3, sq, sb, nxt, ns, sb', a. repeat split; assumption.
+Qed.
+
+(* ---- the sender fields flush's bookkeeping leaves alone ---- *)
+Definition ns_sf (k k' : kcp) : Prop :=
+  snd_queue k' = snd_queue k /\ snd_buf k' = snd_buf k /\ snd_una k' = snd_una k /\
+  snd_nxt k' = snd_nxt k /\ conv k' = conv k /\ stream k' = stream k /\ acklist k' = acklist k.
+
+Lemma ns_sf_refl k : ns_sf k k.
+Proof. unfold ns_sf. auto 10. Qed.
+
+Lemma ns_sf_trans k1 k2 k3 : ns_sf k1 k2 -> ns_sf k2 k3 -> ns_sf k1 k3.
+Proof. unfold ns_sf. intuition congruence. Qed.
+
+Lemma ns_sf_ph2 k1 now : ns_sf k1 (ns_ph2 k1 now).
+Proof.
+  unfold ns_ph2. destruct (rmt_wnd k1 =? 0); [|repeat split].
+  destruct (probe_wait k1 =? 0); [repeat split|].
+  destruct (itimediff now (ts_probe k1) >=? 0); [repeat split|apply ns_sf_refl].
+Qed.
+
+Lemma ns_sf_set_cc k a b c d : ns_sf k (set_cc k a b c d).
+Proof. repeat split. Qed.
+
+Lemma ns_sf_ph6 k5 a cw r : ns_sf k5 (ns_ph6 k5 a cw r).
+Proof.
+  unfold ns_ph6. destruct (nocwnd k5 =? 0); [|apply ns_sf_refl]. cbv zeta.
+  set (ka := if f_change a >? 0 then _ else k5).
+  assert (Ha : ns_sf k5 ka) by (unfold ka; destruct (f_change a >? 0); [apply ns_sf_set_cc|apply ns_sf_refl]).
+  set (kb := if f_lost a >? 0 then _ else ka).
+  assert (Hb : ns_sf ka kb) by (unfold kb; destruct (f_lost a >? 0); [apply ns_sf_set_cc|apply ns_sf_refl]).
+  eapply ns_sf_trans; [exact Ha|]. eapply ns_sf_trans; [exact Hb|].
+  destruct (cwnd kb <? 1); [apply ns_sf_set_cc|apply ns_sf_refl].
+Qed.
+
+Lemma ns_k5_fields k4 sb' a :
+  snd_queue (ns_k5 k4 sb' a) = snd_queue k4 /\ snd_buf (ns_k5 k4 sb' a) = sb' /\
+  snd_una (ns_k5 k4 sb' a) = snd_una k4 /\ conv (ns_k5 k4 sb' a) = conv k4 /\
+  stream (ns_k5 k4 sb' a) = stream k4 /\ acklist (ns_k5 k4 sb' a) = acklist k4.
+Proof. unfold ns_k5. cbv zeta. destruct (f_dead a); repeat split. Qed.
+
+Lemma ns_ph1_k k ft h1 st1 k1 : ns_ph1 k ft = Ok (h1, st1, k1) -> k1 = set_acklist k [] \/ k1 = k.
+Proof.
+  unfold ns_ph1. destruct ((ft =? FLUSH_ACKONLY) || (ft =? FLUSH_FULL)).
+  - destruct (flush_acks k (ns_h0 k) (mkStage [] []) (acklist k)) as [[h st]|w]; [|discriminate].
+    intros H; inversion H; subst. left; reflexivity.
+  - intros H; inversion H; subst. right; reflexivity.
+Qed.
+
+(* ---- the staging buffer holds encoded segments satisfying P ---- *)
+Definition ns_dg (P : seg -> Prop) (d : bytes) : Prop :=
+  exists segs, d = concat (map encode_seg segs) /\ Forall P segs.
+
+Definition ns_stage_ok (P : seg -> Prop) (st : stage) : Prop :=
+  ns_dg P (cur st) /\ Forall (ns_dg P) (outs st).
+
+Lemma ns_stage0 P : ns_stage_ok P (mkStage [] []).
+Proof. split; [exists []; split; [reflexivity|constructor]|constructor]. Qed.
+
+Lemma ns_space_ok P k st sp : ns_stage_ok P st -> ns_stage_ok P (make_space k st sp).
+Proof.
+  intros [Hc Ho]. unfold make_space. destruct (blen (cur st) + sp >? mtu k); [|split; assumption].
+  split; cbn [cur outs]; [exists []; split; [reflexivity|constructor]|constructor; assumption].
+Qed.
+
+Lemma ns_write_ok P k st s st' :
+  ns_stage_ok P st -> P s -> stage_write k st s = Ok st' -> ns_stage_ok P st'.
+Proof.
+  intros [(segs & Hc & Hs) Ho] Hp. unfold stage_write.
+  destruct (blen (cur st) + c_IKCP_OVERHEAD + blen (s_data s) >? buflen k); [discriminate|].
+  intros H; inversion H; subst st'. split; cbn [cur outs]; [|exact Ho].
+  exists (segs ++ [s]). split.
+  - rewrite map_app, concat_app. cbn [map concat]. rewrite app_nil_r, Hc. reflexivity.
+  - apply Forall_app. split; [exact Hs|constructor; [exact Hp|constructor]].
+Qed.
+
+Lemma ns_buffer_ok P st : ns_stage_ok P st -> Forall (ns_dg P) (flush_buffer st).
+Proof.
+  intros [Hc Ho]. unfold flush_buffer. apply Forall_rev.
+  destruct (blen (cur st) >? 0); [constructor; assumption|exact Ho].
+Qed.
+
+(* ---- headers ---- *)
+Definition ns_hdr_ok (h : seg) : Prop :=
+  is_u32 (s_conv h) /\ s_cmd h = c_IKCP_CMD_ACK /\ s_frg h = 0 /\ 0 <= s_wnd h < 65536 /\
+  is_u32 (s_ts h) /\ is_u32 (s_sn h) /\ is_u32 (s_una h).
+
+Definition ns_P (isn : Z) (src : list (Z * bytes)) (s : seg) : Prop :=
+  seg_wf s /\ genuine_seg isn src s.
+
+Lemma ns_wnd_unused_range k : 0 <= wnd_unused k < 65536.
+Proof.
+  unfold wnd_unused. destruct (qlen (rcv_queue k) <? rcv_wnd k); [|lia].
+  unfold u16. apply Z.mod_pos_bound. lia.
+Qed.
+
+Lemma ns_h0_ok k : is_u32 (conv k) -> is_u32 (rcv_nxt k) -> ns_hdr_ok (ns_h0 k).
+Proof.
+  intros Hc Hr. unfold ns_hdr_ok, ns_h0. ns_segf.
+  split; [exact Hc|]. split; [reflexivity|]. split; [reflexivity|]. split; [apply ns_wnd_unused_range|].
+  unfold is_u32, W32 in *. repeat split; try lia.
+Qed.
+
+(* any control segment built from a good header *)
+Lemma ns_hdr_P isn src h c ts sn :
+  ns_hdr_ok h -> c = c_IKCP_CMD_ACK \/ c = c_IKCP_CMD_WASK \/ c = c_IKCP_CMD_WINS ->
+  is_u32 ts -> is_u32 sn ->
+  ns_P isn src (mkSeg (s_conv h) c (s_frg h) (s_wnd h) ts sn (s_una h) 0 0 0 0 0 []).
+Proof.
+  intros (H1 & H2 & H3 & H4 & H5 & H6 & H7) Hc Hts Hsn. split.
+  - unfold seg_wf. ns_segf. rewrite H3.
+    split; [exact H1|]. split; [unfold c_IKCP_CMD_ACK, c_IKCP_CMD_WASK, c_IKCP_CMD_WINS in Hc; lia|].
+    split; [lia|]. split; [exact H4|]. split; [exact Hts|]. split; [exact Hsn|]. split; [exact H7|].
+    split; [constructor|]. change (blen []) with 0. unfold c_mtuLimit. lia.
+  - unfold genuine_seg. ns_segf. intros Hp.
+    unfold c_IKCP_CMD_ACK, c_IKCP_CMD_WASK, c_IKCP_CMD_WINS, c_IKCP_CMD_PUSH in *. lia.
+Qed.
+
+Lemma ns_acks_ok isn src k : forall al h st h' st',
+  Forall ns_ack_ok al -> ns_hdr_ok h -> ns_stage_ok (ns_P isn src) st ->
+  flush_acks k h st al = Ok (h', st') ->
+  ns_hdr_ok h' /\ ns_stage_ok (ns_P isn src) st'.
+Proof.
+  induction al as [|[sn ts] t IH]; intros h st h' st' Hal Hh Hst H; cbn [flush_acks] in H.
+  - inversion H; subst. split; assumption.
+  - inversion Hal as [|x y [Hsn Hts] Hal']; subst x y. cbn [fst snd] in Hsn, Hts.
+    pose proof (ns_space_ok _ k st c_IKCP_OVERHEAD Hst) as Hst1.
+    destruct ((itimediff sn (rcv_nxt k) >=? 0) || match t with [] => true | _ :: _ => false end).
+    + set (h1 := mkSeg (s_conv h) (s_cmd h) (s_frg h) (s_wnd h) ts sn (s_una h) 0 0 0 0 0 []) in *.
+      destruct (stage_write k (make_space k st c_IKCP_OVERHEAD) h1) as [st2|w] eqn:Ew; [|discriminate].
+      assert (Hh1 : ns_hdr_ok h1).
+      { destruct Hh as (H1 & H2 & H3 & H4 & H5 & H6 & H7). unfold ns_hdr_ok, h1. ns_segf. auto 10. }
+      assert (Hp : ns_P isn src h1).
+      { unfold h1. rewrite (proj1 (proj2 Hh)). apply ns_hdr_P; auto. }
+      apply (IH h1 st2 h' st' Hal' Hh1); [|exact H].
+      exact (ns_write_ok _ _ _ _ _ Hst1 Hp Ew).
+    + exact (IH h _ h' st' Hal' Hh Hst1 H).
+Qed.
+
+Lemma ns_ph1_ok isn src k ft h1 st1 k1 :
+  Forall ns_ack_ok (acklist k) -> is_u32 (conv k) -> is_u32 (rcv_nxt k) ->
+  ns_ph1 k ft = Ok (h1, st1, k1) -> ns_hdr_ok h1 /\ ns_stage_ok (ns_P isn src) st1.
+Proof.
+  intros Hal Hc Hr. unfold ns_ph1. destruct ((ft =? FLUSH_ACKONLY) || (ft =? FLUSH_FULL)).
+  - destruct (flush_acks k (ns_h0 k) (mkStage [] []) (acklist k)) as [[h st]|w] eqn:E; [|discriminate].
+    intros H; inversion H; subst.
+    exact (ns_acks_ok isn src k _ _ _ _ _ Hal (ns_h0_ok k Hc Hr) (ns_stage0 _) E).
+  - intros H; inversion H; subst. split; [exact (ns_h0_ok k Hc Hr)|apply ns_stage0].
+Qed.
+
+Lemma ns_ph3_ok isn src k2 h1 st flag c st' :
+  ns_hdr_ok h1 -> c = c_IKCP_CMD_WASK \/ c = c_IKCP_CMD_WINS ->
+  ns_stage_ok (ns_P isn src) st -> ns_ph3 k2 h1 st flag c = Ok st' -> ns_stage_ok (ns_P isn src) st'.
+Proof.
+  intros Hh Hc Hst. unfold ns_ph3. destruct (negb (Z.land (probe k2) flag =? 0)).
+  - intros H. eapply ns_write_ok; [apply ns_space_ok; exact Hst| |exact H].
+    unfold ns_hdr. destruct Hh as (H1 & H2 & H3 & H4 & H5 & H6 & H7).
+    apply ns_hdr_P; [unfold ns_hdr_ok; auto 10|tauto|exact H5|exact H6].
+  - intros H; inversion H; subst. exact Hst.
+Qed.
+
+(* ---- phase 4: what admit moves ---- *)
+Definition ns_adm (cv : Z) (s s' : seg) : Prop :=
+  s_frg s' = s_frg s /\ s_data s' = s_data s /\ s_acked s' = s_acked s /\
+  s_conv s' = cv /\ s_cmd s' = c_IKCP_CMD_PUSH.
+
+Lemma ns_admit_spec cv una cw : forall sq sb nxt n sq' sb' nxt' n',
+  admit sq sb cv una nxt cw n = (sq', sb', nxt', n') ->
+  exists pre adm, sq = pre ++ sq' /\ sb' = sb ++ adm /\ Forall2 (ns_adm cv) pre adm.
+Proof.
+  induction sq as [|s t IH]; intros sb nxt n sq' sb' nxt' n' H; cbn [admit] in H.
+  - inversion H; subst. exists [], []. rewrite app_nil_r. repeat split. constructor.
+  - destruct (itimediff nxt (u32 (una + cw)) >=? 0).
+    + inversion H; subst. exists [], []. rewrite app_nil_r. repeat split. constructor.
+    + destruct (IH _ _ _ _ _ _ _ H) as (pre & adm & E1 & E2 & F).
+      eexists (s :: pre), (_ :: adm). split; [cbn [app]; rewrite E1; reflexivity|].
+      split; [rewrite E2, <- app_assoc; reflexivity|].
+      constructor; [|exact F]. unfold ns_adm. ns_segf. repeat split.
+Qed.
+
+Lemma ns_ph4_spec k3 ft sq sb nxt ns :
+  ns_ph4 k3 ft = (sq, sb, nxt, ns) ->
+  exists pre adm, snd_queue k3 = pre ++ sq /\ sb = snd_buf k3 ++ adm /\ Forall2 (ns_adm (conv k3)) pre adm.
+Proof.
+  unfold ns_ph4. destruct (ft =? FLUSH_FULL).
+  - apply ns_admit_spec.
+  - intros H; inversion H; subst. exists [], []. rewrite app_nil_r. repeat split. constructor.
+Qed.
+
+(* ---- phase 5 ---- *)
+Definition ns_keep (s s' : seg) : Prop :=
+  s_sn s' = s_sn s /\ s_frg s' = s_frg s /\ s_data s' = s_data s /\ s_acked s' = s_acked s /\
+  s_conv s' = s_conv s /\ s_cmd s' = s_cmd s.
+
+Lemma ns_keep_refl s : ns_keep s s.
+Proof. unfold ns_keep. auto 10. Qed.
+
+(* what flush_seg emits for s: the stored conv/cmd/frg/sn/data under the current header *)
+Definition ns_emit_ok (P : seg -> Prop) (h : seg) (now : Z) (s : seg) : Prop :=
+  s_acked s <> 1 -> forall rto xm rts fa,
+    P (mkSeg (s_conv s) (s_cmd s) (s_frg s) (s_wnd h) now (s_sn s) (s_una h) rto xm rts fa (s_acked s) (s_data s)).
+
+Lemma ns_flush_seg_ok P k h resent newsegs now s a s' a' :
+  flush_seg k h resent newsegs now s a = Ok (s', a') ->
+  ns_keep s s' /\ (ns_stage_ok P (f_st a) -> ns_emit_ok P h now s -> ns_stage_ok P (f_st a')).
+Proof.
+  unfold flush_seg. intros H.
+  destruct (s_acked s =? 1) eqn:Ea.
+  { inversion H; subst. split; [apply ns_keep_refl|auto]. }
+  ns_b2z.
+  assert (Hgen : forall t : bool * Z * Z * Z * fl,
+    (let '(needsend, rto, resendts, fastack, a1) := t in
+    let finish (s' : seg) (a' : fl) : res (seg * fl) :=
+      let d := itimediff (s_resendts s') now in
+      let nx := if (d >? 0) && (d <? f_next a') then d else f_next a' in
+      Ok (s', mkFl (f_st a') (f_change a') (f_lost a') (f_fast a') (f_early a') nx (f_dead a')) in
+    if needsend then
+      let s' := mkSeg (s_conv s) (s_cmd s) (s_frg s) (s_wnd h) now (s_sn s) (s_una h)
+                      rto (u32 (s_xmit s + 1)) resendts fastack (s_acked s) (s_data s) in
+      let st1 := make_space k (f_st a1) (c_IKCP_OVERHEAD + blen (s_data s)) in
+      match stage_write k st1 s' with
+      | Panic w => Panic w
+      | Ok st2 =>
+          finish s' (mkFl st2 (f_change a1) (f_lost a1) (f_fast a1) (f_early a1) (f_next a1)
+                          ((s_xmit s' >=? dead_link k) || f_dead a1))
+      end
+    else
+      finish (mkSeg (s_conv s) (s_cmd s) (s_frg s) (s_wnd s) (s_ts s) (s_sn s) (s_una s)
+                    rto (s_xmit s) resendts fastack (s_acked s) (s_data s)) a1) = Ok (s', a') ->
+    f_st (let '(_, _, _, _, a1) := t in a1) = f_st a ->
+    ns_keep s s' /\ (ns_stage_ok P (f_st a) -> ns_emit_ok P h now s -> ns_stage_ok P (f_st a'))).
+  { intros [[[[ns rto] rts] fa] a1] HH Hst1. cbv beta iota zeta in HH, Hst1. destruct ns.
+    - destruct (stage_write k _ _) as [st2|w] eqn:Ew; [|discriminate]. inversion HH; subst s' a'. clear HH.
+      split; [unfold ns_keep; ns_segf; auto 10|]. cbn [f_st]. intros Hst He.
+      eapply ns_write_ok; [apply ns_space_ok; rewrite Hst1; exact Hst| |exact Ew].
+      apply He. exact Ea.
+    - inversion HH; subst s' a'. split; [unfold ns_keep; ns_segf; auto 10|]. cbn [f_st].
+      rewrite Hst1. auto. }
+  apply (Hgen _ H).
+  destruct (s_xmit s =? 0); [reflexivity|].
+  destruct ((s_fastack s >=? resent) && negb (s_fastack s =? 4294967295)); [reflexivity|].
+  destruct ((s_fastack s >? 0) && negb (s_fastack s =? 4294967295) && (newsegs =? 0)); [reflexivity|].
+  destruct (itimediff now (s_resendts s) >=? 0); reflexivity.
+Qed.
+
+Lemma ns_flush_segs_ok P k h resent newsegs now : forall l a l' a',
+  flush_segs k h resent newsegs now l a = Ok (l', a') ->
+  Forall2 ns_keep l l' /\
+  (ns_stage_ok P (f_st a) -> Forall (ns_emit_ok P h now) l -> ns_stage_ok P (f_st a')).
+Proof.
+  induction l as [|s t IH]; intros a l' a' H; cbn [flush_segs] in H.
+  - inversion H; subst. split; [constructor|auto].
+  - destruct (flush_seg k h resent newsegs now s a) as [[s1 a1]|w] eqn:E1; [|discriminate].
+    destruct (flush_segs k h resent newsegs now t a1) as [[t1 a2]|w] eqn:E2; [|discriminate].
+    inversion H; subst l' a'. clear H.
+    destruct (ns_flush_seg_ok P _ _ _ _ _ _ _ _ _ E1) as [K1 S1].
+    destruct (IH _ _ _ E2) as [K2 S2].
+    split; [constructor; assumption|]. intros Hst Hf.
+    inversion Hf as [|x y Hs Ht]; subst x y. apply S2; [apply S1; assumption|exact Ht].
+Qed.
+
+Lemma ns_ph5_ok P k4 h1 ft ns now st3 sb' a :
+  ns_ph5 k4 h1 ft ns now st3 = Ok (sb', a) ->
+  Forall2 ns_keep (snd_buf k4) sb' /\
+  (ns_stage_ok P st3 -> Forall (ns_emit_ok P h1 now) (snd_buf k4) -> ns_stage_ok P (f_st a)).
+Proof.
+  unfold ns_ph5. cbv zeta. destruct (ft =? FLUSH_FULL).
+  - intros H. exact (ns_flush_segs_ok P _ _ _ _ _ _ _ _ _ H).
+  - intros H; inversion H; subst. split; [apply ns_F2_refl; exact ns_keep_refl|]. cbn [f_st]. auto.
+Qed.
+
+Lemma ns_keep_pay l l' : Forall2 ns_keep l l' -> map pay l' = map pay l.
+Proof.
+  induction 1 as [|s s' t t' (_ & K2 & K3 & _) _ IH]; [reflexivity|].
+  cbn [map]. rewrite IH. unfold pay. rewrite K2, K3. reflexivity.
+Qed.
+
+Lemma ns_adm_pay cv l l' : Forall2 (ns_adm cv) l l' -> map pay l' = map pay l.
+Proof.
+  induction 1 as [|s s' t t' (K2 & K3 & _) _ IH]; [reflexivity|].
+  cbn [map]. rewrite IH. unfold pay. rewrite K2, K3. reflexivity.
+Qed.
+
+Lemma ns_keep_contig l l' : Forall2 ns_keep l l' -> forall b, contiguous b l' -> contiguous b l.
+Proof.
+  induction 1 as [|s s' t t' (K1 & _) _ IH]; intros b Hc; [exact I|].
+  cbn [contiguous] in *. destruct Hc as [H1 H2]. split; [rewrite <- K1; exact H1|apply IH; exact H2].
+Qed.
